@@ -45,8 +45,9 @@ function turns(n) {
 }
 
 class PrescribedReadable extends Readable {
-    constructor(chunks) {
+    constructor(chunks, async_delivery) {
         super({highWaterMark: 1});
+        this.async_delivery = !!async_delivery;      // every chunk in an event-loop iteration of its own, like a file or a socket delivers them
         this.chunks = chunks.slice();
         this.total_chunks = chunks.length;
         this.emitted = [];
@@ -60,10 +61,11 @@ class PrescribedReadable extends Readable {
         };
     }
     _read() {
-        if (this.chunks.length) {
-            this.push(this.chunks.shift());
+        let chunk = this.chunks.length ? this.chunks.shift() : null;
+        if (this.async_delivery) {
+            setImmediate(() => { this.push(chunk); });
         } else {
-            this.push(null);
+            this.push(chunk);
         }
     }
 }
@@ -118,7 +120,7 @@ async function op_read(req) {
         let bufs = [];
         let pos = 0;
         for (let n of req.chunks) { bufs.push(bytes.subarray(pos, pos + n)); pos += n; }
-        stream = new PrescribedReadable(bufs);
+        stream = new PrescribedReadable(bufs, !!req.async_delivery);
     }
     let result = {};
     try {
@@ -146,6 +148,39 @@ async function op_read(req) {
     }
     if (stream) result.emitted = stream.emitted;
     if (csv_path) { try { fs.unlinkSync(csv_path); } catch (e) {} }
+    return result;
+}
+
+async function op_overlap(req) {
+    // two stream iterators whose lifetimes overlap (what a JOIN does): A is created and asked for its first record, then B is created and read
+    // completely, then the rest of A is read.  Each must see exactly its own content.
+    function mk(c) {
+        let bytes = Buffer.from(c.bytes_hex, 'hex');
+        let bufs = [], pos = 0;
+        for (let n of c.chunks) { bufs.push(bytes.subarray(pos, pos + n)); pos += n; }
+        let stream = new PrescribedReadable(bufs, true);
+        return [stream, new rbql_csv.CSVRecordIterator(stream, null, c.encoding, c.delim, c.policy, !!c.has_header, c.comment_prefix || null)];
+    }
+    let result = {a: {records: [], error: null, stuck: false}, b: {records: [], error: null, stuck: false}};
+    try {
+        let [sa, ita] = mk(req.a);
+        // what the engine does before it builds the join map: the header / first record of A is pre-read, which pauses A's stream
+        let first = await next_record(ita, sa, 'header');
+        if (first.stuck) result.a.stuck = true;
+        else if (first.err !== undefined) result.a.error = err_info(first.err);
+        let [sb, itb] = mk(req.b);
+        let db = await drain_iterator(itb, sb, null);
+        result.b = {records: db.records, error: db.error, stuck: db.stuck, warnings: itb.get_warnings()};
+        if (!result.a.stuck && result.a.error === null) {
+            let da = await drain_iterator(ita, sa, null);
+            result.a.records = da.records;
+            result.a.error = da.error;
+            result.a.stuck = da.stuck;
+        }
+        result.a.warnings = ita.get_warnings();
+    } catch (e) {
+        result.driver_exception = err_info(e);
+    }
     return result;
 }
 
@@ -416,7 +451,7 @@ async function op_stream_vs_bulk(req) {
     let runs = 0, cases_done = 0, mismatches = [], traces = 0, bulk_errors = 0, nontrivial = 0;
     for (let c of req.cases) {
         let n = c.bytes_hex.length / 2;
-        let base = {bytes_hex: c.bytes_hex, encoding: c.encoding, delim: c.delim, policy: c.policy, has_header: !!c.has_header, comment_prefix: c.comment_prefix || null};
+        let base = {bytes_hex: c.bytes_hex, encoding: c.encoding, delim: c.delim, policy: c.policy, has_header: !!c.has_header, comment_prefix: c.comment_prefix || null, async_delivery: !!c.async_delivery};
         let bulk = await op_read(Object.assign({chunks: null}, base));
         let bulk_key = observation_key(bulk);
         if (bulk.error) bulk_errors += 1;
@@ -476,6 +511,7 @@ async function handle(req) {
         case 'read': return await op_read(req);
         case 'read_batch': { let rs = []; for (let c of req.cases) rs.push(await op_read(c)); return {results: rs}; }
         case 'read_file_stream': return await op_read_file_stream(req);
+        case 'overlap_batch': { let rs = []; for (let c of req.cases) rs.push(await op_overlap(c)); return {results: rs}; }
         case 'write': return await op_write(req);
         case 'write_batch': { let rs = []; for (let c of req.cases) rs.push(await op_write(c)); return {results: rs}; }
         case 'query_table': return await op_query_table(req);
